@@ -522,6 +522,15 @@ fn find_types<'a>(items: &'a [syn::Item], name: &str, f: &'a SrcFile, out: &mut 
                 }
                 out.push((f, e.span().byte_range(), attrs));
             }
+            // a module-level constant is taken verbatim (doc comments dropped, made pub), like a type
+            syn::Item::Const(c) if c.ident == name => {
+                let mut attrs: Vec<_> = c.attrs.iter().map(|a| a.span().byte_range()).collect();
+                if matches!(c.vis, syn::Visibility::Inherited) {
+                    let at = c.const_token.span().byte_range().start;
+                    attrs.push(at..at);
+                }
+                out.push((f, c.span().byte_range(), attrs));
+            }
             syn::Item::Mod(m) => {
                 let is_test = m.attrs.iter().any(|a| a.to_token_stream().to_string().replace(' ', "").contains("cfg(test)"));
                 if is_test {
